@@ -424,6 +424,11 @@ def gen_descr_op(rng, doc):
         steps, _ = target_path(rng, doc, fancy=0.1)
         return [rng.choice(["pp.get", "mp.get"]), steps]
     if r < 0.14:
+        if rng.random() < 0.4:
+            # any parent part (wildcards, filters, recursion: the first node it selects takes the entry, whether or
+            # not a later candidate already has it) and any last step
+            steps, _ = target_path(rng, doc, fancy=0.6)
+            return ["pp.set", steps, ["new", enc(rng.choice(VALS))]]
         return ["pp.set", cascade_path(rng, doc), ["new", enc(rng.choice(VALS))]]
     chain, loc = _decl_chain(rng, doc)
     if rng.random() < 0.12:
